@@ -790,8 +790,77 @@ pub fn cases(tier: &str) -> Vec<Value> {
             out.push(json!({"engine":"enet","check":"c07","kind":"family","listener":listener,"client":client,"dst":dst,"transport":tr}));
         }
     }
+    // big answers to UDP clients that advertise more than a UDP datagram can carry
+    for (listener, client) in [("127.0.0.1", "127.0.0.1"), ("::1", "::1")] {
+        for adv in [65535u32, 65508, 65507, 32768] {
+            out.push(json!({"engine":"enet","check":"c07","kind":"big","listener":listener,"client":client,"advertised":adv}));
+        }
+    }
     out.push(json!({"engine":"enet","check":"c07","kind":"in_addr"}));
     out
+}
+
+/// A UDP client advertising a large EDNS size asks for answers of up to 65535 octets: whatever the
+/// size, exactly one reply must arrive (complete or truncated -- the size rules are C04's).
+fn run_big(case: &Value) -> CaseResult {
+    let listener = case["listener"].as_str().unwrap_or("::1");
+    let spec = RigSpec { listeners: vec![listener.into()], n_upstreams: 1, yaml: BASE_YAML.into() };
+    let mut rig = match Rig::start(&spec) {
+        Ok(r) => r,
+        Err(e) => return CaseResult::machinery(e),
+    };
+    let adv = case["advertised"].as_u64().unwrap_or(65535);
+    let cip: IpAddr = case["client"].as_str().unwrap_or("::1").parse().unwrap();
+    let mut res = CaseResult::ok(format!("big:{listener}:{adv}"));
+    let edns = format!("size:{adv}");
+    let mut seq = 0u32;
+    let mut ask = |rig: &mut Rig, pad: usize, tr: &str| {
+        seq += 1;
+        let q = json!({"name": format!("b{seq}.big.example"), "type": 16, "class": 1, "edns": edns, "flags": "rd", "transport": tr});
+        let (_qm, qb) = crate::checks::c03::build_query(&q, 0x2000 + seq as u16);
+        crate::checks::c04::big_exchange_from(rig, &qb, tr, pad, 0, cip)
+    };
+    // calibration over TCP: offset between the pad and the size of the forwarder's complete reply
+    let cal = match ask(&mut rig, 10, "tcp") {
+        Ok((Some(b), _, _)) => b.len() as i64 - 10,
+        Ok((None, _, _)) => {
+            let _ = rig.stop();
+            return CaseResult::machinery("no reply to the calibration query");
+        }
+        Err(e) => {
+            let _ = rig.stop();
+            return CaseResult::machinery(format!("calibration: {e}"));
+        }
+    };
+    let mut n = 0;
+    for target in [1000i64, 16000, 32768, 60000, 65400, 65500, 65507, 65508, 65520, 65527, 65528, 65535] {
+        let pad = target - cal;
+        if pad < 0 || pad > 65460 {
+            continue;
+        }
+        n += 1;
+        match ask(&mut rig, pad as usize, "udp") {
+            Err(e) => {
+                let _ = rig.stop();
+                return CaseResult::machinery(e);
+            }
+            Ok((Some(_), _, _)) => {}
+            Ok((None, _, _)) => {
+                res.violations.push(
+                    Violation::new("exactly-one-reply", format!("UDP client on {listener} advertising {adv} octets asked for an answer of about {target} octets and received no reply at all"), case.clone())
+                        .sig("transport", "udp")
+                        .sig("replies", "0")
+                        .sig("cause", "big-answer"),
+                );
+            }
+        }
+    }
+    let ps = rig.stop();
+    if let Some(p) = ps.first() {
+        res.violations.push(Violation::new("exactly-one-reply", format!("service task panicked while answering big queries: {} at {}", p.msg, panics::short_loc(&p.loc)), case.clone()).sig("panic_loc", panics::short_loc(&p.loc)));
+    }
+    res.stats = json!({"big_exchanges": n});
+    res
 }
 
 fn run_family(case: &Value) -> CaseResult {
@@ -879,6 +948,7 @@ fn run_in_addr(case: &Value) -> CaseResult {
 pub fn run_case(case: &Value) -> CaseResult {
     match case["kind"].as_str() {
         Some("family") => return run_family(case),
+        Some("big") => return run_big(case),
         Some("in_addr") => return run_in_addr(case),
         _ => {}
     }
